@@ -157,6 +157,10 @@ Definition pmf (n1 n2 : Z) (t : list Z) (q : Z) : dres :=
     | [] | [_] => DPanic
     | _ => DFrac (umemo t n1 (q / 2) - umemo t n1 (q / 2 - 1)) (choose (n1 + n2) n1)
     end
+  else if Z.odd (q / 2) then
+    (* hooks/fix_c11_udist_pmf_untied_grid.diff: U is rounded down to the grid Step() = 1/2
+       (2U' = floor(2U) = q / 2); without ties the half-integer points carry no mass *)
+    DFrac 0 1
   else
     let Ui := q / 4 in
     DFrac (nth (Z.to_nat Ui) (p_counts n1 n2 Ui) 0) (choose (n1 + n2) n1).
